@@ -19,7 +19,7 @@ use std::sync::Mutex;
 use std::time::Duration;
 
 #[derive(Clone, Debug, PartialEq, Eq, Hash)]
-pub enum Item { K(Event), T(bool), EndK, EndT }
+pub enum Item { K(Event), T(bool), EndK, EndT, Burst(usize) }
 
 #[derive(Clone, Debug, PartialEq, Eq, Hash)]
 pub enum PollRet { Dev(Vec<u8>), TimedOut, Interrupted } // 0 keyboard, 1 tablet
@@ -45,6 +45,10 @@ pub struct EnvCfg {
   pub late_us: Vec<u64>,   // lateness menu for late timers
   pub exact_deadline_arrival: bool,
   pub max_calls: usize,
+  /// burst mode: when non-empty the key events are this fixed script and an arrival is one of `burst_sizes` many of them at once
+  pub script: Vec<Event>,
+  pub burst_sizes: Vec<usize>,
+  pub max_bursts: usize,
 }
 
 pub struct Env<'a> {
@@ -66,13 +70,15 @@ pub struct Env<'a> {
   pub replay_divergence: bool,
   pub horizon: bool,
   end_delivered: bool,
+  script_pos: usize,
+  bursts_left: usize,
 }
 
 impl<'a> Env<'a> {
   fn new(cfg: &'a EnvCfg, prefix: &'a [u16], fail_at: Option<usize>) -> Env<'a> {
     Env { cfg, prefix, pos: 0, trace: vec![], kq: VecDeque::new(), tq: VecDeque::new(), k_edge: false, t_edge: false,
       events_left: cfg.max_events, tablet_left: cfg.max_tablet, devs_left: cfg.devs, ticks_left: cfg.ticks, log: vec![], calls: 0, fail_at,
-      replay_divergence: false, horizon: false, end_delivered: false }
+      replay_divergence: false, horizon: false, end_delivered: false, script_pos: 0, bursts_left: cfg.max_bursts }
   }
   fn choose(&mut self, n: usize) -> usize {
     debug_assert!(n >= 1);
@@ -88,6 +94,10 @@ impl<'a> Env<'a> {
     // simplest first: end-of-device, key events, tablet events
     let mut m = vec![];
     if !self.end_delivered { m.push(Item::EndK); }
+    if !self.cfg.script.is_empty() {
+      if !self.end_delivered && self.bursts_left > 0 { for n in &self.cfg.burst_sizes { if self.script_pos + n <= self.cfg.script.len() { m.push(Item::Burst(*n)); } } }
+      return m;
+    }
     if self.events_left > 0 && !self.end_delivered {
       for k in &self.cfg.alphabet { m.push(Item::K(Pressed(*k))); m.push(Item::K(Released(*k))); }
       if self.tablet_left > 0 { m.push(Item::T(true)); m.push(Item::T(false)); }
@@ -101,6 +111,7 @@ impl<'a> Env<'a> {
       Item::EndT => { self.end_delivered = true; self.tq.push_back(it); self.t_edge = true; }
       Item::K(_) => { self.events_left -= 1; self.kq.push_back(it); self.k_edge = true; }
       Item::T(_) => { self.events_left -= 1; self.tablet_left -= 1; self.tq.push_back(it); self.t_edge = true; }
+      Item::Burst(n) => { for i in 0..*n { self.kq.push_back(Item::K(self.cfg.script[self.script_pos + i].clone())); } self.script_pos += n; self.bursts_left -= 1; self.k_edge = true; }
     }
   }
   fn tick(&mut self, what: &'static str) -> Result<(), String> {
@@ -166,7 +177,7 @@ impl<'a> ScriptedDriver for Env<'a> {
           }
         }
         let first = am[c].clone();
-        let mut stop = matches!(first, Item::EndK | Item::EndT);
+        let mut stop = matches!(first, Item::EndK | Item::EndT | Item::Burst(_));
         self.deliver(first);
         while !stop {
           let am2 = self.arrival_menu();
